@@ -8,6 +8,7 @@ def tasks(run):
     for (name, seed) in models.programs(run.seed, n):
         for e in ('add_metric', 'add_lmi', 'new_iterate', 'add_constraint'):
             out.append(('resolve', (name, seed, e)))
+    out += [('resolve', (name, seed, 'replace_metrics')) for (name, seed) in models.programs(run.seed + 3, 13)]
     out += [('resolve_none', (run.seed + i,)) for i in range(2)]
     out += [('resolve_replaced', (run.seed + i,)) for i in range(3)]         # replaced (not only added) constraints / LMIs, function-level constraints
     out += [('resolve', ('T_qg', v, 'add_metric')) for v in range(4)]        # minimiser declared first / last / created by the class (two classes) at the first solve
